@@ -164,8 +164,12 @@ class Ctx:
         ev = {"property_id": self.pid, "tier": self.tier, "seed": self.seed, "level": self.level,
               "coverage": cov, "assumptions": self.assumptions, "wall_s": round(time.time() - self.t0, 2),
               "violations": len(self.violations) + len(self.broken)}
-        os.makedirs(os.path.join(VERIF, "evidence"), exist_ok=True)
-        with open(os.path.join(VERIF, "evidence", f"{self.pid}.json"), "w") as fh:
+        # evidence/ describes /repo itself; a run against another tree (VERIF_REPO=<worktree>) keeps its evidence in scratch
+        evdir = os.path.join(VERIF, "evidence")
+        if os.path.realpath(B.REPO) != "/repo":
+            evdir = os.path.join(B.SCRATCH, "evidence-other-tree")
+        os.makedirs(evdir, exist_ok=True)
+        with open(os.path.join(evdir, f"{self.pid}.json"), "w") as fh:
             json.dump(ev, fh, indent=1, default=str)
         shutil.rmtree(self.work, ignore_errors=True)
         print(f"[{self.pid}] tier={self.tier} seed={self.seed} obligations={len(self.obligations)} "
